@@ -38,7 +38,16 @@ def norm(v, depth=0):
     return {"other": type(v).__name__}
 
 
+class ReaderArg:
+    """an ASN1Reader positioned at the start of `data` (built afresh on each side)"""
+
+    def __init__(self, data):
+        self.data = bytes(data)
+
+
 def enc(v):
+    if isinstance(v, ReaderArg):
+        return {"__t__": "reader", "hex": v.data.hex()}
     if isinstance(v, (bytes, bytearray)):
         return {"__t__": "bytes", "hex": bytes(v).hex()}
     if isinstance(v, memoryview):
@@ -69,6 +78,12 @@ def resolve(dotted):
 
 def observe(dotted, args, then=None):
     fn = resolve(dotted)
+    readers = []
+    if any(isinstance(a, ReaderArg) for a in args):
+        from dpapi_ng._asn1 import ASN1Reader
+
+        args = [ASN1Reader(a.data) if isinstance(a, ReaderArg) else a for a in args]
+        readers = [a for a in args if isinstance(a, ASN1Reader)]
     count = [0]
 
     class Budget(BaseException):
@@ -89,7 +104,10 @@ def observe(dotted, args, then=None):
                 r = getattr(r, then)()
         finally:
             sys.settrace(None)
-        return {"kind": "return", "value": norm(r)}
+        out = {"kind": "return", "value": norm(r)}
+        if readers:
+            out["value"] = [out["value"], {"b": bytes(readers[0]._view).hex()}]  # the value and what the reader has left
+        return out
     except Budget:
         return {"kind": "budget"}
     except BaseException as e:  # noqa
@@ -128,7 +146,10 @@ def main():
     cases = []
 
     def add(dotted, *args, then=None):
-        cases.append({"function": dotted, "args": [enc(x) for x in args], "then": then, "native": observe(dotted, list(args), then)})
+        native = observe(dotted, list(args), then)
+        if len(json.dumps(native)) > 200000:
+            return  # e.g. re-packing a key whose corrupted length field is 2**30: a gigabyte of zeros is not a useful test case
+        cases.append({"function": dotted, "args": [enc(x) for x in args], "then": then, "native": native})
 
     def vectors(sub):
         out = []
@@ -198,6 +219,33 @@ def main():
         except Exception:
             pass
     decoder("dpapi_ng._pkcs7.EnvelopedData.unpack", envs, k=5, noise=10, repack=False)
+    # structure parsers that take a reader: the SEQUENCE / [2] element they expect, cut out of the captured blobs
+    def reader_cases(dotted, seeds, k=4, noise=8):
+        for s in seeds:
+            for d in variants(s, k):
+                add(dotted, ReaderArg(d))
+        for _ in range(noise):
+            add(dotted, ReaderArg(rbytes(0, 60)))
+
+    ris, algs, ecis, kekids = [], [], [], []
+    for e in envs:
+        try:
+            rd = a.ASN1Reader(e).read_sequence()
+            rd.read_integer()
+            set_rd = rd.read_set_of()
+            ris.append(bytes(set_rd._view))
+            ecis.append(bytes(rd._view))
+            ri = a.ASN1Reader(bytes(set_rd._view)).read_sequence(tag=a.ASN1Tag(a.TagClass.CONTEXT_SPECIFIC, 2, True))
+            ri.read_integer()
+            kekids.append(bytes(ri._view))
+            _pkcs7.KEKIdentifier.unpack(ri)
+            algs.append(bytes(ri._view))
+        except Exception as ex:
+            sys.stderr.write(f"reader seeds: {type(ex).__name__}: {ex}\n")
+    reader_cases("dpapi_ng._pkcs7.RecipientInfo.unpack", ris[:2])
+    reader_cases("dpapi_ng._pkcs7.KEKIdentifier.unpack", kekids[:2])
+    reader_cases("dpapi_ng._pkcs7.AlgorithmIdentifier.unpack", algs[:2])
+    reader_cases("dpapi_ng._pkcs7.EncryptedContentInfo.unpack", ecis[:2])
     kids = []
     for b in blobs:
         try:
